@@ -399,7 +399,10 @@ func genAPP(r *rng, sz int) *rtcp.ApplicationDefined {
 	case szLarge:
 		a.Data = r.spareBytes(1000 + r.intn(3000))
 	case szBad:
-		switch r.intn(3) {
+		switch r.intn(4) {
+		case 3:
+			a.Data = r.spareBytes(0xFFFF - 12 + 1 + r.intn(8)) // too large for the 16-bit length field
+			return a
 		case 0:
 			a.SubType = 32 + uint8(r.intn(200))
 		case 1:
@@ -591,7 +594,9 @@ func genTWCC(r *rng, sz int) *rtcp.TransportLayerCC {
 		}
 	}
 	if sz == szBad {
-		switch r.intn(3) {
+		switch r.intn(4) {
+		case 3:
+			t.PacketChunks = append(t.PacketChunks, nil) // String prints <nil>; Marshal panics
 		case 0:
 			if len(t.RecvDeltas) > 0 {
 				t.RecvDeltas[r.intn(len(t.RecvDeltas))].Delta = 1 << 40 // exceeds limit: silently skipped by Marshal
@@ -867,6 +872,10 @@ func genXR(r *rng, sz int) *rtcp.ExtendedReport {
 		}
 		x.Reports = append(x.Reports, genXRBlock(r, r.intn(8), bsz))
 	}
+	if sz == szBad && r.chance(4) {
+		// a nil block: String prints <nil>; Marshal, MarshalSize and DestinationSSRC panic the same way everywhere
+		x.Reports = append(x.Reports, nil)
+	}
 	if len(x.Reports) > 0 && r.chance(10) {
 		// the same block object listed twice
 		x.Reports = append(x.Reports, x.Reports[r.intn(len(x.Reports))])
@@ -1048,7 +1057,9 @@ func genCompound(r *rng, sz int) *rtcp.CompoundPacket {
 	}
 	if sz == szBad {
 		// violates the compound grammar in one of several ways
-		switch r.intn(4) {
+		switch r.intn(5) {
+		case 4: // a nil member: String prints <nil>, everything else must fail (or panic) the same way everywhere
+			c = append(c, genRR(r, sub()), nil, genSDES(r, szTypical, true))
 		case 0: // first packet is not a report
 			c = append(c, genSDES(r, szTypical, true), genRR(r, sub()))
 		case 1: // no CNAME
